@@ -38,6 +38,9 @@ func main() {
 			runTrace(n, arg)
 			if heteroEnabled {
 				runHetero(n, arg)
+				if k < nargs/5 {
+					runRoundTrip(n, k%2, arg)
+				}
 			}
 			coef := make([]uint64, 2*n)
 			for i := range coef {
@@ -326,6 +329,34 @@ func runHetero(n int, arg string) {
 	for i, k := range calls {
 		if k != 1 {
 			rec.Violate(fmt.Sprintf("C20/Pipe%d/calls", n), fmt.Sprintf("f_%d applied %d times (calls %v)", i+1, k, calls), c)
+		}
+	}
+}
+
+// runRoundTrip: argument and result of the composed function have the same type while some stages go through
+// another one (nothing in the statement singles such pipelines out)
+func runRoundTrip(n, pat int, arg string) {
+	c := caseT{Family: fmt.Sprint("round-trip/", pat), N: n, Arg: arg}
+	calls := make([]int, n)
+	hit := func(i int, in string) string { calls[i]++; return in + fmt.Sprintf("[%d]", i) }
+	var got string
+	p := common.Catch(func() { got = composeR(n, pat, hit)(ra{arg}) })
+	want := arg
+	for i := 0; i < n; i++ {
+		want += fmt.Sprintf("[%d]", i)
+	}
+	rec.Eval(fmt.Sprint("r", n, pat, arg), true)
+	rec.Count("function_applications_observed", int64(sum(calls)))
+	if p != nil {
+		rec.Violate(fmt.Sprintf("C20/Pipe%d/panic", n), fmt.Sprint(p), c)
+		return
+	}
+	if got != want {
+		rec.Violate(fmt.Sprintf("C20/Pipe%d/result", n), fmt.Sprintf("round trip (pattern %d): got %q want %q", pat, got, want), c)
+	}
+	for i, k := range calls {
+		if k != 1 {
+			rec.Violate(fmt.Sprintf("C20/Pipe%d/calls", n), fmt.Sprintf("round trip: f_%d applied %d times (calls %v)", i+1, k, calls), c)
 		}
 	}
 }
